@@ -7,7 +7,18 @@ RULE = ("random context-free grammars as in C08; get_generating_symbols / get_nu
         "get_reachable_symbols / is_empty / is_finite are compared with the Lean model, get_words(n) for n=0..5 and "
         "unbounded (when the model proves the language finite) with the independent bounded-language oracle. "
         "Non-trivial: >=2 productions, one with a body of length >=2.")
-THEOREMS = []
+THEOREMS = ["Pfl.CFG.mem_generating_iff",
+            "Pfl.CFG.mem_nullable_iff",
+            "Pfl.CFG.mem_reachable_iff",
+            "Pfl.CFG.isEmpty_iff",
+            "Pfl.CFG.generateEpsilon_iff",
+            "Pfl.CFG.generating_nodup",
+            "Pfl.CFG.nullable_nodup",
+            "Pfl.CFG.getWords_exact",
+            "Pfl.CFG.getWords_exact_unbounded",
+            "Pfl.CFG.isFinite_iff",
+            "Pfl.CFG.cfgMem_iff",
+            "Pfl.CFG.mem_langUpTo_iff"]
 
 
 def generate(rng, tier):
